@@ -49,8 +49,15 @@ class CancellableAction(Future):
             raise InvalidStateError('Action has already been ran')
 
         try:
-            with kiwipy.capture_exceptions(self):
-                self.set_result(self._action(*args, **kwargs))
+            try:
+                result = self._action(*args, **kwargs)
+            except Exception as exception:
+                # the action may have been cancelled while it ran (a request made from inside it replaced it)
+                if not self.done():
+                    self.set_exception(exception)
+            else:
+                if not self.done():
+                    self.set_result(result)
         finally:
             self._action = None  # type: ignore
 
